@@ -160,6 +160,59 @@ def check_column(case):
     return res
 
 
+def check_search(case):
+    """pareto_efficient column of the table RETURNED by (repeated) search() calls on one search object, and of results.csv:
+    after every call it must be the non-dominated set of the WHOLE history of successful evaluations."""
+    import pandas as pd
+    from deephyper.evaluator import Evaluator
+    from deephyper.hpo import CBO, HpProblem, RandomSearch
+
+    rows, k, calls = case["rows"], case["k"], case["calls"]
+    count = [0]
+
+    async def run(job):
+        i = count[0]
+        count[0] += 1
+        r = rows[i % len(rows)]
+        if r is None:
+            return "F_scripted"
+        return tuple(float(v) for v in r)
+
+    problem = HpProblem()
+    problem.add_hyperparameter((0.0, 1.0), "x")
+    res = dict(ok=True, kind="oracle", clause="", nontrivial=len(calls) > 1, desc=["k=%d" % k, "calls=%d" % len(calls), "search=" + case["search"]], sig={})
+    with tempfile.TemporaryDirectory(prefix="vp_c11s_") as d:
+        evaluator = Evaluator.create(run, method="serial", method_kwargs={"num_workers": 1})
+        if case["search"] == "random":
+            search = RandomSearch(problem, evaluator, random_state=case.get("seed", 1), log_dir=d)
+        else:
+            search = CBO(problem, evaluator, random_state=case.get("seed", 1), log_dir=d, surrogate_model="DUMMY", verbose=0)
+        for ci, n in enumerate(calls):
+            df = search.search(max_evals=n)
+            disk = pd.read_csv(os.path.join(d, "results.csv"))
+            for name, t in (("returned", df), ("disk", disk)):
+                t = t.sort_values("job_id").reset_index(drop=True)
+                if "pareto_efficient" not in t.columns or len(t) != count[0]:
+                    return dict(res, ok=False, clause="search_column_missing", detail=dict(call=ci, table=name, columns=list(t.columns), rows=len(t), evals=count[0]))
+                # the table's objectives are the scripted ones (job ids follow submission order with one serial worker)
+                exp = [rows[int(j) % len(rows)] for j in t["job_id"]]
+                col = [bool(b) if b == b else None for b in t["pareto_efficient"]]
+                if any(c is None for c in col):
+                    return dict(res, ok=False, clause="search_column_empty_flag", detail=dict(call=ci, table=name, col=col))
+                succ = [i for i, r in enumerate(exp) if r is not None]
+                for i in succ:
+                    got = [float(t["objective_%d" % q][i]) for q in range(k)]
+                    if got != [float(v) for v in exp[i]]:
+                        return dict(res, ok=False, kind="corr", clause="search_objectives", detail=dict(call=ci, row=i, got=got, exp=exp[i]))
+                if any(col[i] for i, r in enumerate(exp) if r is None):
+                    return dict(res, ok=False, clause="search_failed_row_marked", detail=dict(call=ci, table=name, col=col))
+                if succ:
+                    P = to_int_pts([[-float(v) for v in exp[i]] for i in succ])
+                    if not model().call(F_OKNDS, [P, [col[i] for i in succ]]):
+                        return dict(res, ok=False, clause="search_column_mask", detail=dict(call=ci, table=name, col=col, objectives=exp))
+    return res
+
+
 # ---------------- generators ----------------
 def gen_lattice(maxpts):
     def gen(rng, tier):
@@ -216,10 +269,29 @@ def rand_pts(rng, n, m, kind):
             v = [rng.choice([a + b, round(a + b, 10)])] + [rng.choice([0.5, 0.25]) for _ in range(m - 1)]
             pts.append(v)
         return pts
+    if kind == "near_tie":
+        # values of large magnitude that differ by tiny RELATIVE margins (down to one ulp): every strict difference counts
+        base = [float(rng.choice([1.0, 1e5, 3.0 * 2 ** 17, 1e9, -1e5])) for _ in range(m)]
+        pts = []
+        for _ in range(n):
+            v = []
+            for j in range(m):
+                b = base[j]
+                c = rng.random()
+                if c < 0.4:
+                    v.append(b)
+                elif c < 0.7:
+                    v.append(b * (1 + rng.choice([-1, 1]) * 10.0 ** -rng.randint(6, 14)))
+                elif c < 0.85:
+                    v.append(float(np.nextafter(b, rng.choice([-np.inf, np.inf]))))
+                else:
+                    v.append(b + rng.choice([-1, 1]) * abs(b) * 0.25)
+            pts.append(v)
+        return pts
     raise ValueError(kind)
 
 
-KINDS = ["float", "grid", "equal_sum", "dups", "chain", "absorb", "near_equal_sum"]
+KINDS = ["float", "grid", "equal_sum", "dups", "chain", "absorb", "near_equal_sum", "near_tie"]
 
 
 def gen_floats(count):
@@ -272,6 +344,36 @@ def gen_column(count):
     return gen
 
 
+def gen_search(count):
+    def gen(rng, tier):
+        # the shortest history in which a later call dominates a point an earlier call flagged
+        yield dict(rows=[[1, 1], [2, 2]], k=2, calls=[1, 1], search="random")
+        yield dict(rows=[[1, 3], [3, 1], [3, 3], [0, 0]], k=2, calls=[2, 1, 1], search="random")
+        for i in range(count):
+            k = rng.randint(2, 3)
+            calls = [rng.randint(1, 4) for _ in range(rng.randint(1, 4))]
+            n = sum(calls) + 2
+            pf = rng.choice([0.0, 0.0, 0.2, 0.5])
+            rows = [None if rng.random() < pf else [rng.randint(-4, 4) / 2 for _ in range(k)] for _ in range(n)]
+            if rows[0] is None:  # a first call with failures only is C04/C06's subject (the objective columns are not known yet)
+                rows[0] = [0.0] * k
+            if i % 3 == 0:  # improving sequence: later evaluations dominate earlier ones
+                rows = [None if r is None else [j / 2.0 + v / 8 for v in r] for j, r in enumerate(rows)]
+            yield dict(rows=rows, k=k, calls=calls, search="random" if i % 4 else "cbo", seed=rng.randint(0, 999))
+    return gen
+
+
+def shrink_search(case):
+    calls = case["calls"]
+    for i in range(len(calls)):
+        if len(calls) > 1:
+            yield dict(case, calls=calls[:i] + calls[i + 1:])
+        if calls[i] > 1:
+            yield dict(case, calls=calls[:i] + [calls[i] - 1] + calls[i + 1:])
+    if case["search"] != "random":
+        yield dict(case, search="random")
+
+
 def shrink_pts(case):
     pts = case["pts"]
     for i in range(len(pts)):
@@ -304,4 +406,5 @@ def streams(tier):
         Stream("nds_floats", gen_floats(5000 if th else 500), check_nds, shrink_pts, timeout=60),
         Stream("ranked", gen_ranked(3000 if th else 400, 4 if th else 3), check_ranked, shrink_pts, timeout=60),
         Stream("pareto_column", gen_column(600 if th else 80), check_column, shrink_rows, timeout=60),
+        Stream("search_column", gen_search(300 if th else 40), check_search, shrink_search, timeout=120),
     ]
